@@ -360,3 +360,153 @@ def run_batch(tier, seed):
     except rsparse.Unsupported as e:
         ob.update({"verdict": "inconclusive", "message": "encoder met source it cannot encode: %s" % e})
     return ob
+
+
+def run_compaction(tier, seed):
+    """C02 / C03 at the catalogue level: what a compaction pointer does to the catalogue and what of it reaches the index file.
+    Handler<RaftLogManagerRequest> arms SplitOff + InstallSnapshotPointerLog (what FileStore::finalize_snapshot_installation sends) and
+    save_new_snapshot_pointer (what the second compaction triggers through begin_ready_to_load), with split_off, from source. The pointer
+    index is symbolic; catalogues as above. The index manager is a recording sink: the LAST SaveLogs message is what a reopen finds.
+    Oracle after the operation: (a) no file that lies wholly at or below the pointer stays in the catalogue; (b) the file the pointer falls
+    into is marked split off behind the pointer - in memory AND in the saved catalogue (otherwise the entries removed by the compaction come
+    back after a reopen); (c) the saved catalogue equals the in-memory one (ids, first indexes, split-off indexes, entry counts) and starts
+    with the pointer's own range; (d) the live actor of the split file is told the same split index."""
+    t0 = time.time()
+    ob = {"engine": "smt", "harness": "s02_8_compaction_pointer_catalogue", "encodes_files": FILES, "queries": 0, "solver_s": 0.0, "distinct": 0,
+          "encodes": ["RaftLogManager::{split_off,save_new_snapshot_pointer}", "Handler<RaftLogManagerRequest>::handle (SplitOff, InstallSnapshotPointerLog)", "LogRangeWrap::get_log_range_end_index"],
+          "bound": "catalogues: %s; every pointer index 1..=%d (symbolic); with and without a preceding SplitOff(pointer + 1)" % ("; ".join(CATALOGUES), MAX_CUT)}
+    try:
+        prog = load_program(FILES)
+        it = rseval.Interp(prog)
+        it.lenient = True
+        saved = []
+
+        class IndexAddr:
+            ty = "IndexAddr"
+        it.models[("IndexAddr", "do_send")] = lambda interp, recv, args: saved.append(args[0]) or ()
+        it.models[("LogActorAddr", "do_send")] = lambda interp, recv, args: recv.sent.append(args[0]) or ()
+        it.fn_models["Self::create_log_actor"] = lambda interp, args: Actor("new-file-%s" % (args[1]["id"] if isinstance(args[1], Struct) else "?"))
+        it.fn_models["create_log_actor"] = it.fn_models["Self::create_log_actor"]
+        it.fn_models["std::fs::remove_file"] = lambda interp, args: Ok(())
+        it.fn_models["fs::remove_file"] = it.fn_models["std::fs::remove_file"]
+        it.fn_models["Self::get_log_path"] = lambda interp, args: "p/log_%s" % (args[1]["id"] if isinstance(args[1], Struct) else "?")
+        it.fn_models["get_log_path"] = it.fn_models["Self::get_log_path"]
+        handle = prog.trait_method("RaftLogManager", "handle", "RaftLogManagerRequest")
+        if handle is None:
+            raise rsparse.Unsupported("Handler<RaftLogManagerRequest> for RaftLogManager not found")
+        ptr = z3.BitVec("pointer_index", 64)
+        with_split = z3.Bool("preceded_by_split_off")
+        viol = None
+        npaths = 0
+        inside = 0
+
+        def kind(m):
+            if isinstance(m, Enum):
+                return m.variant, m.payload
+            if isinstance(m, Uninterp):
+                return m.name.split("::")[-1], m.args
+            return str(m), None
+        for cname, files in CATALOGUES.items():
+            def thunk(files=files):
+                del saved[:]
+                logs = []
+                for fid, start, count in files:
+                    rng = Struct("LogRange", {"id": fid + 3, "pre_term": 0, "start_index": start, "record_count": count if count is not None else 0,
+                                              "split_off_index": start, "is_close": count is not None, "mark_remove": False})
+                    logs.append(Struct("LogRangeWrap", {"log_range": rng, "log_actor": Some(Actor("file-%d" % (fid + 3)))}))
+                mgr = Struct("RaftLogManager", {"logs": logs, "current_log_actor": logs[-1]["log_actor"], "base_path": "p", "index_info": NONE, "last_applied_log": 0,
+                                                "index_manager": Some(IndexAddr()), "pre_ready_snapshot_pointer": NONE, "last_ready_snapshot_pointer": NONE, "is_init": True})
+                actors = {w["log_range"]["id"]: w["log_actor"].payload[0] for w in logs}
+                rec = Struct("LogRecordDto", {"index": ptr, "term": 2, "tree": "", "value": []})
+                ws = it.branch(with_split)
+                if ws:
+                    it._invoke(handle, [mgr, Enum("RaftLogManagerRequest", "SplitOff", [ptr + 1]), "ctx"], self_ty="RaftLogManager")
+                it._invoke(handle, [mgr, Enum("RaftLogManagerRequest", "InstallSnapshotPointerLog", [rec]), "ctx"], self_ty="RaftLogManager")
+                mem = [(w["log_range"]["id"], w["log_range"]["start_index"], w["log_range"]["split_off_index"], w["log_range"]["record_count"]) for w in mgr["logs"]]
+                last_saved = None
+                for m in saved:
+                    k, payload = kind(m)
+                    if k == "SaveLogs":
+                        lst = payload[0] if isinstance(payload, (list, tuple)) and len(payload) == 1 and isinstance(payload[0], list) else payload
+                        last_saved = [(x["id"], x["start_index"], x["split_off_index"], x["record_count"]) for x in lst]
+                told = {fid: [kind(m) for m in a.sent] for fid, a in actors.items()}
+                return mem, last_saved, told, ws
+            rng_c = [z3.UGE(ptr, 1), z3.ULE(ptr, MAX_CUT)]
+            it.solver.push()
+            it.solver.add(*rng_c)
+            paths = it.explore(thunk)
+            it.solver.pop()
+            npaths += len(paths)
+            s = z3.Solver()
+            s.add(*rng_c)
+            for pc, r, exc in paths:
+                if exc is not None:
+                    viol = {"message": "panic in the log manager: %s" % exc, "tags": ["panic"], "model": {"catalogue": cname}}
+                    break
+                mem, last_saved, told, ws = r
+                for c in range(1, MAX_CUT + 1):
+                    s.push()
+                    s.add(*pc)
+                    s.add(ptr == c)
+                    ob["queries"] += 1
+                    feasible = s.check() == z3.sat
+                    m_ = s.model() if feasible else None
+                    s.pop()
+                    if not feasible:
+                        continue
+
+                    def val(x):
+                        return m_.eval(rseval.to_bv(x), model_completion=True).as_long() if isinstance(x, z3.ExprRef) else x
+                    memc = [tuple(val(x) for x in row) for row in mem]
+                    savc = [tuple(val(x) for x in row) for row in last_saved] if last_saved is not None else None
+                    msg = tag = None
+                    split = c + 1
+                    for fid0, start, count in files:
+                        fid = fid0 + 3
+                        end = start + count if count is not None else 1 << 62
+                        # the pointer's own range may reuse the id of a file that was just removed: a file is identified by (id, first index)
+                        row = [x for x in memc if x[0] == fid and x[1] == start]
+                        if split >= end and count is not None:
+                            # (a pointer re-installed at the index of an existing pointer file gives a range identical to the removed one)
+                            if row and start != c:
+                                msg, tag = "file %d (entries %d..%d) lies wholly at or below the pointer %d but stays in the catalogue" % (fid, start, end - 1, c), "compacted-file-kept"
+                        elif start < split < end:
+                            inside += 1
+                            if not row:
+                                msg, tag = "file %d (entries %d..) holds entries behind the pointer %d but is dropped from the catalogue" % (fid, start, c), "live-file-dropped"
+                            elif row[0][2] != split:
+                                msg, tag = "file %d: the pointer %d falls into it but its split-off index in the catalogue is %d, not %d" % (fid, c, row[0][2], split), "split-off-not-recorded"
+                            else:
+                                so = [p for k_, p in told.get(fid, []) if k_ == "SplitOff"]
+                                if not so or val(so[-1][0] if isinstance(so[-1], (list, tuple)) else so[-1]) != split:
+                                    msg, tag = "file %d: the pointer %d falls into it but its live actor is not told to split off at %d" % (fid, c, split), "actor-not-told"
+                        if msg:
+                            break
+                    if not msg:
+                        if savc is None:
+                            msg, tag = "a snapshot pointer at %d is installed but no catalogue is saved to the index file" % c, "catalogue-not-saved"
+                        elif savc != memc:
+                            msg, tag = ("after the pointer %d the catalogue saved to the index file %s differs from the one in memory %s (id, first index, split-off index, entries): "
+                                        "a reopen sees another log than the running process" % (c, savc, memc)), "saved-catalogue-differs"
+                        elif not memc or memc[0][1] != c:
+                            msg, tag = "after the pointer %d the catalogue does not start with the pointer's own range: %s" % (c, memc), "pointer-range-missing"
+                    if msg:
+                        viol = {"message": "%s [catalogue: %s%s]" % (msg, cname, ", SplitOff first" if ws else ""), "tags": [tag],
+                                "model": {"catalogue": cname, "files": [(f + 3, a, b) for f, a, b in files], "pointer": c, "split_off_first": ws, "memory": memc, "saved": savc}}
+                        break
+                if viol:
+                    break
+            if viol:
+                break
+        ob["queries"] += it.queries
+        ob["solver_s"] = round(time.time() - t0, 1)
+        ob["sample"] = {"paths_explored": npaths, "pointer_positions_inside_a_file": inside, "opaque_symbols": sorted(it.opaque_seen)[:12]}
+        if viol:
+            ob.update({"verdict": "violation", "message": viol["message"], "tags": viol["tags"], "counterexample": viol["model"]})
+        elif inside == 0:
+            ob.update({"verdict": "inconclusive", "message": "reachability witness never reached: a pointer that falls inside a file"})
+        else:
+            ob.update({"verdict": "discharged", "distinct": npaths})
+    except rsparse.Unsupported as e:
+        ob.update({"verdict": "inconclusive", "message": "encoder met source it cannot encode: %s" % e})
+    return ob
